@@ -23,7 +23,7 @@
 		}
 		return rt, w.conv(rt)
 	}
-	for i := 0; i < n*4; i++ {
+	for i := 0; i < n*3; i++ {
 		p := c14paths[g.r.n(len(c14paths))]
 		pkg := w.pkg(p)
 		cl := closPool[g.r.n(len(closPool))]
